@@ -299,7 +299,10 @@ def c03(tier, replay):
         sessions.append([{"do": "send", "line": "position fen " + fen}, {"do": "go", "line": rng.choice(GO_SMALL)}, {"do": "go", "line": rng.choice(GO_ZERO)}])
     os.remove(hp)
     tactical = [l.strip() for l in open(os.path.join(vcommon.VERIF, "harness", "seeds.txt")) if l.strip()]
-    for fen in rng.sample(tactical, 10 if q else len(tactical)):
+    # (the two "promotion next to castling" seeds always: the engine's own promotion followed by a castling reply of the other
+    # side is where a stale promotion piece shows in the next answer)
+    always = [f for f in tactical if "1P4P1" in f]
+    for fen in (always + rng.sample([f for f in tactical if f not in always], 8)) if q else tactical:
         steps = [{"do": "send", "line": "position fen " + fen}]
         for _ in range(4):
             steps.append({"do": "go", "line": rng.choice(GO_ZERO + GO_ZERO + GO_SMALL)})
